@@ -2,6 +2,7 @@ package svc
 
 import (
 	"bytes"
+	"regexp"
 	"encoding/binary"
 	"fmt"
 
@@ -320,6 +321,8 @@ func GenTraffic(t *rapid.T, service string) Traffic {
 	return tr
 }
 
+var asciiNumber = regexp.MustCompile(`[0-9]+`)
+
 var magics = [][]byte{[]byte("GET / HTTP/1.1\r\n\r\n"), []byte("SSH-2.0-x\r\n"), []byte("RFB 003.008\n"), []byte("CNXN"), {0x16, 0x03, 0x01}, []byte("*1\r\n$4\r\nINFO\r\n"), {0x30, 0x0c, 0x02, 0x01, 0x01, 0x60, 0x07}, []byte("USER anonymous\r\nPASS x\r\nCWD /\r\n"), []byte("EHLO x\r\n"), {0xff, 0xff, 0xff, 0xff, 0x54}, {0, 1, 'a', 0, 'o', 0}, []byte("stats\r\n"), []byte("POST / HTTP/1.1\r\nContent-Type: application/ipp\r\nContent-Length: 9\r\n\r\n\x01\x01\x00\x0b\x00\x00\x00\x01\x01"), {0xff, 0xfd, 0x18}, {0, 0, 0, 0}, {0xff, 0xff, 0xff, 0xff}}
 
 // Mutate applies 1..3 structure-aware mutations to a unit list.
@@ -335,7 +338,7 @@ func Mutate(t *rapid.T, units [][]byte) ([][]byte, string) {
 			u = append(u, []byte{0})
 		}
 		i := rapid.IntRange(0, len(u)-1).Draw(t, "unit")
-		kind := rapid.SampledFrom([]string{"truncate-stream", "truncate-unit", "delete", "duplicate", "swap", "flip", "insert", "length-field", "splice", "repeat-many"}).Draw(t, "mut")
+		kind := rapid.SampledFrom([]string{"truncate-stream", "truncate-unit", "delete", "duplicate", "swap", "flip", "insert", "length-field", "ascii-number", "splice", "repeat-many"}).Draw(t, "mut")
 		kinds = append(kinds, kind)
 		switch kind {
 		case "truncate-stream":
@@ -370,6 +373,13 @@ func Mutate(t *rapid.T, units [][]byte) ([][]byte, string) {
 				for q := 0; q < len(v) && p+q < len(u[i]); q++ {
 					u[i][p+q] = v[q]
 				}
+			}
+		case "ascii-number":
+			// text protocols carry lengths and counts as decimal numbers: inflate one
+			if locs := asciiNumber.FindAllIndex(u[i], -1); len(locs) > 0 {
+				l := locs[rapid.IntRange(0, len(locs)-1).Draw(t, "which")]
+				v := rapid.SampledFrom([]string{"0", "1", "65536", "536870912", "2147483647", "2147483648", "4294967295", "4294967296", "18446744073709551615", "99999999999999999999", "-1"}).Draw(t, "num")
+				u[i] = append(append(append([]byte(nil), u[i][:l[0]]...), []byte(v)...), u[i][l[1]:]...)
 			}
 		case "splice":
 			m := rapid.SampledFrom(magics).Draw(t, "magic")
